@@ -260,6 +260,8 @@ class ImportTracks(Stream):
         # a part belongs to the instrument of its track
         by_instr = {}
         for nm in r["names"]:
+            if not r["sound"].get(nm):
+                continue        # a bar in which nothing sounds is written as a rest on a placeholder part (piano__0): not a note of any track
             by_instr.setdefault(nm.split("__")[0], 0)
             by_instr[nm.split("__")[0]] += 1
         if set(by_instr) - set(case["instr"]):
